@@ -1,5 +1,6 @@
 import AslModel.Lemmas.Dis4004
 import AslModel.Lemmas.DisChunks
+import AslModel.Lemmas.DisChunksRefine
 /-! C15 – disassembling and re-assembling reproduces the original bytes.
 
 What is proved here (models: `Model/Dis/Core.lean` = das.c/chunks.c/entryaddress.c/codechunks.c, `Model/Dis/I4004.lean` =
@@ -10,6 +11,13 @@ deco4004.c + an encoder from code4004.c; both opcode tables regenerated from the
 * `C15_areas` – for *any* CPU callback: the code areas the tracing loop ends with are sorted, pairwise separated and cover exactly
   the extents of the traced instructions; `C15_areas_disjoint` – code and data areas share no address iff no traced
   instruction touches a vector cell; `C15_areas_inside` – inside the image for callbacks that only report bytes they fetched.
+* `C15_chunks_refine` – chunks.c `AddChunk` as written (`addChunkC`: unsorted array, first-fit, merge scan from index 1, hole
+  filled with the last element) against the interval-set insertion `ins`, for every insertion history: `SortChunks` of the array
+  is the `ins` list (`C15_chunks_refine_step`: one call from any reachable array; `C15_chunks_array`: the array's own invariant
+  and `AddressInChunk`).  `C15_run_refine`: a whole `runDasl` – the arrays it ends with and the areas it prints are the ghost
+  interval-set lists (the driver's `l1` comparison, now a theorem; it keeps running as a test).  `C15_areas_C`,
+  `C15_data_exact_C`, `C15_areas_inside_C`, `C15_trace_refine`: `C15_areas` & co. for the arrays `codeC`/`dataC` the machine
+  carries.  The model has unbounded addresses (`Nat`); the 64-bit wrap of `Start + Len` in `Overlap`/`SetChunk` is outside it.
 Not proved here (tested against the real tools every run): text parsing and label resolution by asl for the 4004.
 The 6800/6802 theorems (round trip on the printed text without excluded inputs, length, `Honest`, table facts) are in `Props/C15_6800.lean`.
 
@@ -179,6 +187,184 @@ theorem C15_areas_inside (dis : Disasm) (img : Image) (lower : Bool) (fuel : Nat
   obtain ⟨syms, hlen, _⟩ := hF e he
   exact hh syms e.1 x hx1 (by rw [hlen]; exact hx2)
 
+/-! ## chunks.c `AddChunk` as written (unsorted array) against the interval-set insertion
+
+`addChunkC` is the transcription of chunks.c: first-fit search from index 0, `SetChunk` into the slot found, then the
+`do … while (Found)` scan **from index 1** that fuses every further element overlapping or touching `Chunks[f1]` and fills the
+hole with the **last** element.  The normal form in which the array is compared is the one das.c itself uses before it prints:
+`SortChunks` (`sortChunks`, ascending start address).  dasl (`UsedCodeChunks`, `UsedDataChunks`), p2bin/p2hex (`UsedList`, only
+the overlap warning) and asl (`SegChunks`, section usage) all call this one function. -/
+
+/-- **chunks.c refines the interval-set insertion**, for every insertion history (zero-length pieces, adjacent pieces, pieces
+that bridge several ranges, any array order the swap-with-last removal has produced): `SortChunks` of the array `AddChunk` has
+built is the sorted list of maximal ranges that `ins` builds from the same calls. -/
+theorem C15_chunks_refine (xs : List (Nat × Nat)) :
+    sortChunks (xs.foldl (fun l e => addChunkC l e.1 e.2) []) = xs.foldl (fun l e => addChunk l e.1 e.2) [] :=
+  (refines_foldl xs [] [] Refines.nil).sort_eq
+
+/-- one call, from any array that is in the state `AddChunk` leaves behind (`SepU`: non-empty ranges, no two overlapping or
+touching, any order) and any sorted list describing the same set: the relation holds again afterwards -/
+theorem C15_chunks_refine_step (lC lS : List Chunk) (s n : Nat) (h : Refines lC lS) :
+    Refines (addChunkC lC s n) (addChunk lS s n) ∧ sortChunks (addChunkC lC s n) = addChunk lS s n :=
+  ⟨h.add s n, (h.add s n).sort_eq⟩
+
+/-- the array itself, without reference to `ins`: after any insertion history its ranges are non-empty, no two of them overlap
+or touch (chunks.c `Overlap`), two of them that share an address are the same element, an address lies in one of them iff it
+lies in an inserted piece, and `AddressInChunk` answers as on the interval-set list -/
+theorem C15_chunks_array (xs : List (Nat × Nat)) :
+    let l := xs.foldl (fun l e => addChunkC l e.1 e.2) []
+    (∀ c ∈ l, 0 < c.len) ∧ l.Pairwise (fun c d => overlap c.start c.len d.start d.len = false) ∧
+    (∀ c ∈ l, ∀ d ∈ l, ∀ x, covers c x → covers d x → c = d) ∧
+    (∀ x, area l x ↔ inExtents xs x) ∧
+    (∀ a, inChunks l a = inChunks (xs.foldl (fun l e => addChunk l e.1 e.2) []) a) := by
+  intro l
+  obtain ⟨h1, h2⟩ := foldl_addChunkC_spec xs [] sepU_nil
+  refine ⟨h1.1, h1.2, h1.disjoint, fun x => ?_, (refines_foldl xs [] [] Refines.nil).inChunks_eq⟩
+  rw [h2 x]
+  exact ⟨fun h => h.elim (fun h => absurd h (area_nil x)) id, Or.inr⟩
+
+/-- non-vacuity / the order effects: `(12,8)` is adjacent to `(10,2)` in slot 1, the scan then finds `(20,2)` in slot 2 and the
+last element `(50,1)` moves into the hole – the array is *not* sorted, its `SortChunks` is the interval-set list; a zero-length
+piece changes nothing; `(22,9)` bridges `[10,22)` and `[30,32)` -/
+example : [(30, 2), (10, 2), (20, 2), (50, 1), (12, 8)].foldl (fun l e => addChunkC l e.1 e.2) [] =
+    [⟨30, 2⟩, ⟨10, 12⟩, ⟨50, 1⟩] := by decide
+example : [(30, 2), (10, 2), (20, 2), (50, 1), (12, 8)].foldl (fun l e => addChunk l e.1 e.2) [] =
+    [⟨10, 12⟩, ⟨30, 2⟩, ⟨50, 1⟩] := by decide
+example : [(30, 2), (10, 2), (20, 2), (50, 1), (12, 8), (16, 0), (22, 9)].foldl (fun l e => addChunkC l e.1 e.2) [] =
+    [⟨10, 22⟩, ⟨50, 1⟩] := by decide
+example : Refines [⟨30, 2⟩, ⟨10, 12⟩, ⟨50, 1⟩] [⟨10, 12⟩, ⟨30, 2⟩, ⟨50, 1⟩] :=
+  refines_foldl [(30, 2), (10, 2), (20, 2), (50, 1), (12, 8)] [] [] Refines.nil
+
+/-- **the machine**: a whole dasl run (any CPU callback, image, option list, number of rounds).  The arrays the run ends with,
+put through `SortChunks`, are the interval-set lists built from the same calls, and the areas handed to the output iterator are
+exactly these lists, code and data – this is the comparison the driver reports as `l1` on every run. -/
+theorem C15_run_refine (dis : Disasm) (img : Image) (lower : Bool) (entries : List Entry) (fuel : Nat) :
+    let r := runDasl dis img lower entries fuel
+    sortChunks r.codeC = r.codeS ∧ sortChunks r.dataC = r.dataS ∧
+    (r.areas.filter (fun p => !p.2)).map (·.1) = r.codeS ∧ (r.areas.filter (fun p => p.2)).map (·.1) = r.dataS := by
+  intro r
+  cases h0 : cmdEntries img lower {} entries with
+  | none =>
+    have hr : r = ⟨false, "", [], [], [], [], [], [], [], [], false⟩ := by
+      show runDasl dis img lower entries fuel = _
+      simp only [runDasl, h0]
+    rw [hr]
+    exact ⟨rfl, rfl, rfl, rfl⟩
+  | some s0 =>
+    have hinv := traceLoop_ref dis img lower fuel s0 (cmdEntries_ref img lower entries {} s0 refInv_init h0)
+    generalize hs : (traceLoop dis img lower fuel s0).1 = s at hinv
+    have e1 : r.codeC = s.codeC := by
+      show (runDasl dis img lower entries fuel).codeC = _
+      simp only [runDasl, h0, ← hs]
+    have e2 : r.dataC = s.dataC := by
+      show (runDasl dis img lower entries fuel).dataC = _
+      simp only [runDasl, h0, ← hs]
+    have e3 : r.codeS = s.code := by
+      show (runDasl dis img lower entries fuel).codeS = _
+      simp only [runDasl, h0, ← hs]
+    have e4 : r.dataS = s.data := by
+      show (runDasl dis img lower entries fuel).dataS = _
+      simp only [runDasl, h0, ← hs]
+    have e5 : r.areas = iterateChunks ((sortChunks s.codeC).length + (sortChunks s.dataC).length + 1)
+        (sortChunks s.codeC) (sortChunks s.dataC) := by
+      show (runDasl dis img lower entries fuel).areas = _
+      simp only [runDasl, h0, ← hs]
+    obtain ⟨p1, p2⟩ := iterateChunks_parts _ (sortChunks s.codeC) (sortChunks s.dataC) (Nat.lt_succ_self _)
+    rw [e1, e2, e3, e4, e5, p1, p2]
+    exact ⟨hinv.code.sort_eq, hinv.data.sort_eq, hinv.code.sort_eq, hinv.data.sort_eq⟩
+
+/-- non-vacuity: a run of the 4004 callback on a four-byte image with a direct entry and a vector cell is accepted and ends
+with one code range and one data range -/
+example : let r := runDasl I4004.disassemble [⟨0, [0x40, 0x02, 0x00, 0x00]⟩] false [.vector 2 2 true none, .direct 0] 100
+    r.ok = true ∧ r.codeC ≠ [] ∧ r.dataC = [⟨2, 2⟩] := by decide +kernel
+
+/-- `C15_areas` for the array the machine carries (`UsedCodeChunks` as chunks.c keeps it, no ghost list involved): after any
+number of rounds its ranges are non-empty and pairwise neither overlapping nor touching, no address lies in two of them, an
+address is in the array iff it lies in the extent of a traced instruction, and what `SortChunks` hands to the output is the
+sorted/separated list with the same property -/
+theorem C15_areas_C (dis : Disasm) (img : Image) (lower : Bool) (fuel : Nat) (s0 : TState)
+    (h0 : s0.codeC = []) (h1 : s0.traced = []) :
+    let s := (traceLoop dis img lower fuel s0).1
+    SepU s.codeC ∧
+    (∀ c ∈ s.codeC, ∀ d ∈ s.codeC, ∀ x, covers c x → covers d x → c = d) ∧
+    (∀ x, area s.codeC x ↔ inExtents s.traced x) ∧
+    Sep (sortChunks s.codeC) ∧
+    (∀ x, area (sortChunks s.codeC) x ↔ inExtents s.traced x) := by
+  have hinv : TraceInvC s0 := ⟨by rw [h0]; exact sepU_nil, by
+    intro x; rw [h0, h1]
+    constructor
+    · intro h; exact absurd h (area_nil x)
+    · rintro ⟨e, he, _⟩; cases he⟩
+  have h := traceLoop_invC dis img lower fuel s0 hinv
+  obtain ⟨q1, _, q3⟩ := sortChunks_sep _ h.sep
+  exact ⟨h.sep, h.sep.disjoint, h.exact, q1, fun x => (q3 x).trans (h.exact x)⟩
+
+/-- non-vacuity: the initial state of `runDasl` satisfies the hypotheses, and three rounds of the 4004 callback from entry 0 over
+`jun 4 / nop nop / jun 0` leave two separate ranges in the array (first-fit: the later range is appended) -/
+example : ({} : TState).codeC = [] ∧ ({} : TState).code = [] ∧ ({} : TState).traced = [] := ⟨rfl, rfl, rfl⟩
+example : (traceLoop I4004.disassemble [⟨0, [0x40, 0x04, 0x00, 0x00, 0x40, 0x00]⟩] false 3 { queue := [0] }).1.codeC =
+    [⟨0, 2⟩, ⟨4, 2⟩] := by decide +kernel
+
+/-- …and the array is, up to `SortChunks`, the interval-set list of `C15_areas`; `AddressInChunk` (which decides what enters the
+entry queue) answers the same on both -/
+theorem C15_trace_refine (dis : Disasm) (img : Image) (lower : Bool) (fuel : Nat) (s0 : TState)
+    (h0 : s0.code = []) (h0c : s0.codeC = []) :
+    let s := (traceLoop dis img lower fuel s0).1
+    sortChunks s.codeC = s.code ∧ (∀ x, area s.codeC x ↔ area s.code x) ∧ (∀ a, inChunks s.codeC a = inChunks s.code a) ∧
+    sortChunks s.dataC = sortChunks s0.dataC ∧ s.data = s0.data := by
+  intro s
+  -- the data lists are not touched by the loop
+  have hd : ∀ (fuel : Nat) (t : TState), (traceLoop dis img lower fuel t).1.dataC = t.dataC ∧
+      (traceLoop dis img lower fuel t).1.data = t.data := by
+    intro fuel
+    induction fuel with
+    | zero => intro t; exact ⟨rfl, rfl⟩
+    | succ n ih =>
+      intro t
+      unfold traceLoop
+      split
+      · exact ⟨rfl, rfl⟩
+      · rename_i a q _
+        exact ⟨(ih _).1.trans rfl, (ih _).2.trans rfl⟩
+  -- the code part of the relation
+  have hc : ∀ (fuel : Nat) (t : TState), Refines t.codeC t.code → Refines (traceLoop dis img lower fuel t).1.codeC
+      (traceLoop dis img lower fuel t).1.code := by
+    intro fuel
+    induction fuel with
+    | zero => intro t h; exact h
+    | succ n ih =>
+      intro t h
+      unfold traceLoop
+      split
+      · exact h
+      · exact ih _ (h.add _ _)
+  have h := hc fuel s0 (by rw [h0, h0c]; exact Refines.nil)
+  exact ⟨h.sort_eq, h.same, h.inChunks_eq, by rw [(hd fuel s0).1], (hd fuel s0).2⟩
+
+/-- the data array after the vector options (`CMD_EntryAddress` calls `AddChunk(&UsedDataChunks, …)` once per vector, last option
+first in this fold): separated, covers exactly the vector cells, and `SortChunks` of it is the list of `C15_data_exact` -/
+theorem C15_data_exact_C (cells : List (Nat × Nat)) :
+    let l := cells.foldr (fun e l => addChunkC l e.1 e.2) []
+    SepU l ∧ (∀ x, area l x ↔ ∃ e ∈ cells, e.1 ≤ x ∧ x < e.1 + e.2) ∧
+    sortChunks l = cells.foldr (fun e l => addChunk l e.1 e.2) [] := by
+  intro l
+  have h := refines_foldr cells
+  refine ⟨h.sepC, fun x => ?_, h.sort_eq⟩
+  exact (h.same x).trans (C15_data_exact cells x)
+
+example : [(0x20, 2), (0x10, 2), (0x22, 2)].foldr (fun e l => addChunkC l e.1 e.2) [] = [⟨0x20, 4⟩, ⟨0x10, 2⟩] := by decide
+
+/-- the code ranges of the array lie inside the loaded image, for an honest callback -/
+theorem C15_areas_inside_C (dis : Disasm) (img : Image) (lower : Bool) (fuel : Nat) (s0 : TState)
+    (h0 : s0.codeC = []) (h1 : s0.traced = []) (hh : Honest dis img lower) :
+    ∀ x, area (traceLoop dis img lower fuel s0).1.codeC x → inImage img x := by
+  intro x hx
+  have hA := (C15_areas_C dis img lower fuel s0 h0 h1).2.2.1 x
+  have hF := traceLoop_from dis img lower fuel s0 (by rw [h1]; intro e he; cases he)
+  obtain ⟨e, he, hx1, hx2⟩ := hA.mp hx
+  obtain ⟨syms, hlen, _⟩ := hF e he
+  exact hh syms e.1 x hx1 (by rw [hlen]; exact hx2)
+
 /-- a decoded 4004 instruction is one or two bytes long, one unless the table type takes an operand byte -/
 theorem C15_4004_len_le (a op d : Nat) (dec : I4004.Dec) (h : I4004.decode a op d = some dec) :
     (dec.len = 1 ∨ dec.len = 2) ∧ (I4004.needsData (I4004.row op).typ = false → dec.len = 1) := by
@@ -242,6 +428,11 @@ theorem C15_4004_honest (img : Image) (lower : Bool) : Honest I4004.disassemble 
 theorem C15_4004_areas_inside (img : Image) (lower : Bool) (fuel : Nat) (s0 : TState) (h0 : s0.code = []) (h1 : s0.traced = []) :
     ∀ x, area (traceLoop I4004.disassemble img lower fuel s0).1.code x → inImage img x :=
   C15_areas_inside I4004.disassemble img lower fuel s0 h0 h1 (C15_4004_honest img lower)
+
+/-- …the same for the array `UsedCodeChunks` the machine carries -/
+theorem C15_4004_areas_inside_C (img : Image) (lower : Bool) (fuel : Nat) (s0 : TState) (h0 : s0.codeC = []) (h1 : s0.traced = []) :
+    ∀ x, area (traceLoop I4004.disassemble img lower fuel s0).1.codeC x → inImage img x :=
+  C15_areas_inside_C I4004.disassemble img lower fuel s0 h0 h1 (C15_4004_honest img lower)
 
 /-- non-vacuity of `Sep`/`area`: inserting a piece that touches two ranges fuses all three -/
 example : ins 12 4 [⟨10, 2⟩, ⟨16, 3⟩, ⟨40, 1⟩] = [⟨10, 9⟩, ⟨40, 1⟩] := by decide
